@@ -215,6 +215,7 @@ PROPS["C15"] = dict(
 
 PROPS["C14"] = dict(
     units=[dict(name="c14-mpi-shim", src="props/c04.cpp", floor_exempt=True, deps=["lib/shim/mpi.h"], flags=["-DVERIF_T=float", "-DVERIF_AS=14", "-I", "@HERE@/lib/shim", "-pthread"], libs=["-ldl", "-pthread"], quick=dict(shards=2, cases=250), thorough=dict(shards=4, cases=8000)),
+           dict(name="c14-mpi-shim-ldouble", src="props/c04.cpp", floor_exempt=True, deps=["lib/shim/mpi.h"], flags=["-DVERIF_T=long double", "-DVERIF_AS=14", "-I", "@HERE@/lib/shim", "-pthread"], libs=["-ldl", "-pthread"], quick=dict(shards=2, cases=250), thorough=dict(shards=4, cases=8000)),
            dict(name="c14", src="props/c14.cpp", deps=["lib/pwc.hpp", "lib/exactsum.hpp"])],
     rule="case = numeric type x N (1..10^5 quick, ..10^7 thorough) x one of 10 value patterns (one large then many "
          "eps/4, alternating with cancellation, geometric decay over 40 binades, random magnitudes over 20 decades with "
